@@ -283,7 +283,9 @@ impl Gen {
         match self.rng.below(20) {
             0 => ts(-1_000_000_000),
             1 => ts(2_000_000_000),
-            2..=9 => ts(self.rng.range(0, 3)),
+            2..=7 => ts(self.rng.range(0, 3)),
+            // sub-second instants: same second, different (or equal) fractions
+            8..=11 => ts_ns(self.rng.range(0, 2), *self.rng.pick(&[0u32, 200_000_000, 700_000_000, 999_999_999])),
             _ => ts(self.rng.range(0, 40)),
         }
     }
@@ -296,9 +298,11 @@ impl Gen {
             s.extend(std::iter::repeat('x').take(size));
             return s;
         }
-        match self.rng.below(4) {
-            0 => "a".into(),
-            1 => "b".into(),
+        match self.rng.below(8) {
+            0 | 1 => "a".into(),
+            2 | 3 => "b".into(),
+            // the empty string is a value, and differs from "no value"
+            4 => String::new(),
             _ => format!("r{}-{}", r, self.counter),
         }
     }
